@@ -5,9 +5,14 @@
 (* imports pygopherd) for every name of the case space, the configured decompressors of the   *)
 (* "full" world, and the copy block size read from handlers/base.py.                          *)
 Names == {"n_txt", "n_gz", "n_none"}
-Row(n) == CASE n = "n_txt" -> [type |-> "text/plain", enc |-> "none"]
+RowShipped(n) == CASE n = "n_txt" -> [type |-> "text/plain", enc |-> "none"]
             [] n = "n_gz" -> [type |-> "text/plain", enc |-> "gzip"]
             [] n = "n_none" -> [type |-> "none", enc |-> "none"]
+\* a second configuration: the `encoding` option lists only .bz2, mime.types types the suffix gz
+RowAlt(n) == CASE n = "n_txt" -> [type |-> "text/plain", enc |-> "none"]
+            [] n = "n_gz" -> [type |-> "application/gzip", enc |-> "none"]
+            [] n = "n_none" -> [type |-> "none", enc |-> "none"]
+Row(l, n) == IF l = "altenc" THEN RowAlt(n) ELSE RowShipped(n)
 Decompressors == {"gzip"}
 RealB == 4096
 =============================================================================
